@@ -1,6 +1,7 @@
 import SamplyModel.Proto
 import SamplyModel.Model.PanicKernels
 import SamplyModel.Model.BreakpadServe
+import SamplyModel.Model.JsonText
 /-!
 Line protocol for C08. A case is a list of operations; every operation yields exactly one output line.
 
@@ -25,6 +26,14 @@ Kernel operations (the model predicts the value; byte strings are hex, `-` = emp
                                                | sym <addr> <size|none> <name> <n|none> [, frame <fn|none> <file|none> <line|none>]*
                                         an address `iter` = `iter_symbols()` collected at that point:
                                                iter <n> <addr>:<name>,… | iter panic   (`BPC.serveSession`)
+
+    errjson <msg>                   → json <text>      `json!({"error": msg}).to_string()` = `JT.errorJson msg`
+    badurl <path>                   → json <text> | known-path      `Api::query_api(path, "{}")` for a path that is
+                                        none of the three endpoints = `JT.errorJson ("Unrecognized URL " ++ path)`
+    apiresp <path> <body> <resp>    → resp <text>      the response text itself; `<resp>` = what the same call
+                                        returned when the case was generated (the model echoes it: determinism);
+                                        the judge runs the independent recogniser `JT.acceptable path text` on
+                                        the implementation's line (clauses (a), (b))
 
 Exploration operations (third-party parsers in the loop; the model only states the property: the call
 returns): `file …` → `set`; `api <path> <body>`, `lookup …`, `symcreate …`, `debugid …`, `bigsym …` → `fine`.
@@ -138,6 +147,12 @@ def modelOp (l : String) : String :=
       showServed (BPC.serveSession (hexBytes t) (hexBytes i) ((addrs.takeWhile (· != "iter")).map nat!)
         (((addrs.dropWhile (· != "iter")).drop 1).map nat!))
     else showServed (BPC.serve (hexBytes t) (hexBytes i) (addrs.map nat!))
+  | ["errjson", m] => s!"json {bytesHex (JT.errorJson (hexBytes m))}"
+  | ["badurl", p] =>
+    match JT.dispatch (hexBytes p) with
+    | some _ => "known-path"
+    | none => s!"json {bytesHex (JT.queryApiText (hexBytes p) (fun _ => .ok []))}"
+  | ["apiresp", _, _, r] => s!"resp {r}"
   | "file" :: _ => "set"
   | "api" :: _ => "fine"
   | "lookup" :: _ => "fine"
@@ -171,6 +186,11 @@ def judge (ops impl : List String) : Bool × String :=
       if w.head? = some "short-listing" then (false, s!"[short-listing] op {k} ({kind}): /asm/v1 listed fewer bytes than requested and available ({r})") else
       if w.head? = some "slow" then (false, s!"[slow] op {k} ({kind}): time far beyond n log n for the input size ({r})") else
       if w.head? = some "bad-op" then (false, s!"[bad-op] op {k} ({kind}): harness did not understand the operation") else
+      if kind == "apiresp" && !(match words o, w with
+          | [_, p, _, _], ["resp", t] => JT.acceptable (hexBytes p) (hexBytes t)
+          | _, _ => false) then
+        (false, s!"[not-json-response] op {k} ({kind}): the response text is not a JSON object that is a result of the endpoint or carries an error message (RFC 8259 recogniser)")
+      else
       if (kind == "api" || kind == "lookup" || kind == "symcreate" || kind == "debugid" || kind == "bigsym") && r ≠ "fine" then
         (false, s!"[unexpected] op {k} ({kind}): outcome {r}")
       else go (k + 1) os rs
